@@ -7,7 +7,12 @@ static inline GetStaticResult IORA_GSR_EMPTY(Status s) { GetStaticResult r; r.st
 static inline iora_blob blobFromEntry(iora_entry e, iora_sv path) { (void)path; IORA_ASSERT(e != NULL, "blobFromEntry dereferences a non-null entry"); iora_blob b; b.entry = e; return b; }
 
 typedef struct { iora_path root; iora_path templatesRoot; iora_path staticsRoot; bool perRequestRead; int mutex; iora_scache staticCache; iora_tcache templateCache; } FsState;
+typedef struct { iora_strobj bytes; } EmbeddedTemplate;        /* registry entry: bytes compiled into the binary */
+#define IORA_EMBEDDED_BYTES(v) (&(v))
 typedef struct { Mode _mode; const void *_registry; FsState *_fs; } Assets;
 
 /* callees that are not extracted into this unit: body-less, replaced by their contracts (post.c) */
 iora_optstr Assets_readFile(const iora_path *p);
+bool lexicallyRejected(iora_sv p);                                   /* proved in unit assets_lexical */
+GetStaticResult Assets_getStaticEmbedded(const Assets *self, iora_sv path);      /* embedded mode: not under contract */
+const EmbeddedTemplate *Assets_findTemplate(const Assets *self, iora_sv name);     /* embedded mode: not under contract */
